@@ -5,6 +5,10 @@ HERE = os.path.dirname(os.path.dirname(os.path.abspath(__file__)))
 ALL = ["C%02d" % i for i in range(1, 21)]
 # id -> (technique, level text, level note, design ref)
 CHECKS = {
+ "C15": ("bounded-exhaustive enumeration of protocol-27 file-list encodings (independent reference codec) against the real decoder, and reference decoding of the real encoder's stream in every arrangement/option set; index numbering cross-checked in both directions",
+         "decoder: every list of <=2 entries from a 10/12-entry feature pool x every subset of compression flags a conforming sender may use x all 32 option sets; encoder: every-type tree x 32 option sets x {daemon, command} x {pull, push}, sparse files up to 2^40 bytes for the 64-bit length encoding; numbering on names where plausible wrong orders differ",
+         "the reference codec (refproto) is the authority: it transcribes rsync 2.6.x flist.c; no foreign rsync is required (tridge rsync, if present, is only used by an optional self-test of refproto)",
+         "DESIGN.md §5 C15"),
  "C03": ("exhaustive single-fault enumeration on a scripted reference sender's stream against the real receiver in both roles (every bit position of the data segment, every token substitution/transposition/duplication/deletion, forged partial-collision trailers, basis edits)",
          "for three file shapes and two receiver roles every one of the ~14k single-bit flips of the data segment, all token-level faults of 3 streams with the true trailer, forged trailers agreeing in k<16 bytes with the damaged data's checksum, and 6 third-party basis edits between signature generation and reconstruction run as real sessions; outcome must be (error and previous content kept) or (success and destination == source)",
          "trusts refproto's encoding of the undamaged stream (validated by the control part); MD4 collisions are modelled (forged trailers), not found; thorough adds two-file sessions",
